@@ -216,6 +216,9 @@ def _limb_ops(W, L, sg, tier):
            ("neg", "return -a;", one, W, lambda cx, v: la.pscale(v[0], -1)),
            ("inc", "T r = a; ++r; return r;", one, W, lambda cx, v: la.padd(v[0], la.const(1))),
            ("dec", "T r = a; --r; return r;", one, W, lambda cx, v: la.padd(v[0], la.const(-1)))]
+    # bitwise operators: limb i of the result is the machine operation on limb i of the operands
+    for (nm, sym) in (("and", "&"), ("or", "|"), ("xor", "^")):
+        ops.append((nm, "return a %s b;" % sym, two, W, lambda cx, v, nm=nm: la.bitwise(cx, nm, v[0], v[1], L, W)))
     # comparisons: the result is the truth value of the comparison of the mathematical (signed) values
     def val(cx, x):
         return la.sval(cx, x, W) if sg else x
@@ -303,7 +306,7 @@ def limb_rules(r, work, tier, seed):
     return cnt, und, len(types)
 
 
-LIMB_FLOOR = {"quick": 192, "thorough": 2254}
+LIMB_FLOOR = {"quick": 216, "thorough": 2470}
 
 
 def run(tier, seed, work):
